@@ -95,6 +95,11 @@ def families():
                 closers = d - 1 if num is None else d * num // den
                 return ("(" + op) * d + "(a=" + "1" * d + ")" * closers
             F[f"filter:nesting-{'and' if op == '&' else 'not'}-{name}-closed"] = ("filter", fam)
+    # the same nests with the spaces the parser tolerates after an operator / between sub-filters
+    F["filter:nesting-and-padded"] = ("filter", lambda n: "(& " * (n // 4) + "(cn=a)" + ")" * (n // 4))
+    F["filter:nesting-not-padded"] = ("filter", lambda n: "(! " * (n // 4) + "(cn=a)" + ")" * (n // 4))
+    F["filter:nesting-padded-both"] = ("filter", lambda n: "(& " * (n // 5) + "(cn=a)" + " )" * (n // 5))
+    F["filter:nesting-siblings-padded"] = ("filter", lambda n: "(| (x=y) " * (n // 10) + "(cn=a)" + ")" * (n // 10))
     F["filter:nesting-unclosed"] = ("filter", lambda n: "(&" * (n // 2))
     F["filter:wide-and"] = ("filter", lambda n: "(&" + "(a=b)" * (n // 5) + ")")
     F["filter:escapes"] = ("filter", lambda n: "(a=" + "\\41" * (n // 3) + ")")
